@@ -41,14 +41,15 @@ func (o *Obligation) Key() string { return o.Rule + "/" + o.Construct }
 
 // Run collects the obligations of one property check.
 type Run struct {
-	Prop    string
-	Tier    string
-	W       *World
-	Obls    []*Obligation
-	expects []expect
-	notes   []string
-	rules   map[string]string // rule id -> description
-	config  string
+	Prop     string
+	Tier     string
+	W        *World
+	Obls     []*Obligation
+	expects  []expect
+	notes    []string
+	rules    map[string]string // rule id -> description
+	config   string
+	selftest map[string]any
 }
 
 type expect struct {
@@ -260,6 +261,9 @@ func (r *Run) Finish(t0 time.Time, seed int, meta PropMeta, configs []string) in
 		"functions_analysed":  len(r.W.AllFuncs),
 		"exhaustive":          false,
 	}
+	if r.selftest != nil {
+		cov["checker_selftest"] = r.selftest
+	}
 	level := "other"
 	if meta.Level != "" {
 		level = meta.Level
@@ -295,6 +299,43 @@ func (r *Run) Finish(t0 time.Time, seed int, meta PropMeta, configs []string) in
 		return 2
 	}
 	return 0
+}
+
+// newFailures: keys of failed / undecided obligations (including unmet instance
+// expectations) that are not listed known findings. Used by the self-test and the matrix.
+func (r *Run) newFailures() []string {
+	known, err := loadKnown()
+	if err != nil {
+		return []string{"known-findings/unreadable"}
+	}
+	perRule := map[string]int{}
+	for _, o := range r.Obls {
+		perRule[o.Rule]++
+	}
+	seen := map[string]bool{}
+	var out []string
+	for _, e := range r.expects {
+		if perRule[e.rule] < e.n {
+			out = append(out, e.rule+"/instances")
+		}
+	}
+	for _, o := range r.Obls {
+		if o.Status == StPass || seen[o.Key()] {
+			continue
+		}
+		isKnown := false
+		for _, f := range known.Findings {
+			if f.Property == r.Prop && f.Key == o.Key() {
+				isKnown = true
+			}
+		}
+		if !isKnown {
+			seen[o.Key()] = true
+			out = append(out, o.Key())
+		}
+	}
+	sort.Strings(out)
+	return out
 }
 
 func oneLine(s string) string {
